@@ -431,6 +431,19 @@ theorem peak_recurFrom (k : Kind) : ∀ more j, peak k (recurFrom more j) =
     intro j
     cases k <;> simp [recurFrom, peak, ih] <;> omega
 
+theorem peak_padFrom (frame base : Nat) (k : Kind) : ∀ more j, peak k (padFrom frame base more j) =
+    match k with
+    | .stack => base + frame * (j + more) + frame
+    | .blockRun => 2 + (j + more)
+    | .exprRun => 2 * (j + more) + 4
+    | _ => 0 := by
+  intro more
+  induction more with
+  | zero => intro j; cases k <;> simp [padFrom, peak]
+  | succ m ih =>
+    intro j
+    cases k <;> simp [padFrom, peak, ih, Nat.mul_add] <;> omega
+
 theorem peak_callFrom (k : Kind) : ∀ more lv, 1 ≤ lv → peak k (callFrom more lv) =
     match k with
     | .stack => if more = 0 then 0 else stackBase + 4 * (lv + more) - 3
@@ -445,10 +458,14 @@ theorem peak_callFrom (k : Kind) : ∀ more lv, 1 ≤ lv → peak k (callFrom mo
 
 theorem peak_requests (f : Family) (k : Kind) (n : Nat) : peak k (requests f n) = peakOf f k n := by
   cases f <;> cases k <;>
-    simp [requests, parseReqs, runReqs, peakOf, peak, peak_append, peak_ramp, peak_recurFrom, peak_callFrom, stackBase] <;>
+    simp [requests, parseReqs, runReqs, peakOf, peak, peak_append, peak_ramp, peak_recurFrom, peak_padFrom, peak_callFrom, stackBase] <;>
     (try split) <;> omega
 
 theorem peakOf_mono (f : Family) (k : Kind) {m n : Nat} (h : m ≤ n) : peakOf f k m ≤ peakOf f k n := by
-  cases f <;> cases k <;> simp [peakOf] <;> (try split) <;> (try split) <;> omega
+  cases f with
+  | recurPad a p c =>
+    have hm := Nat.mul_le_mul_left (4 + a + p) h
+    cases k <;> simp [peakOf] <;> omega
+  | _ => cases k <;> simp [peakOf] <;> (try split) <;> (try split) <;> omega
 
 end Hawk.Depth
